@@ -15,8 +15,9 @@ def vote_dict(v, rng):
     return {"W": {"W": t}, "L": {"L": t}, "X": {"X": t}, "none": rng.choice([{}, {"W": 0}])}[v]
 
 
-def replay(tid, cons, styles, rounds, rng):
-    """one audit, from CVRs to the last round; returns the event records"""
+def replay(tid, cons, styles, rounds, rng, oneaudit=False):
+    """one audit, from CVRs to the last round; returns the event records.
+    oneaudit: some cards belong to tally pools (ONEAudit): padding first, pool means before the margins"""
     import numpy as np
     import pandas as pd
     from shangrla.core.Audit import Assertion, Audit, Contest, CVR
@@ -28,8 +29,8 @@ def replay(tid, cons, styles, rounds, rng):
         if not any(c in s for s in styles):
             styles[rng.randrange(n)].add(c)
     votes = [{c: rng.choice(["W", "W", "W", "L", "X", "none"]) for c in st} for st in styles]
-    listing = {c: sum(1 for st in styles if c in st) for c in cons}
-    bounds = {c: listing[c] + rng.choice([0, 0, 1, 2]) for c in cons}
+    pools = [(rng.choice(["none", "none", "P1", "P2"]) if oneaudit else "none") for _ in range(n)]
+    padded = oneaudit and rng.random() < 0.7
     max_cards = n + rng.choice([0, 1, 3])
     limit = 0.5
     recs = []
@@ -38,15 +39,23 @@ def replay(tid, cons, styles, rounds, rng):
         v = {c: dict(vote_dict(votes[k][c], rng)) for c in st}
         if rng.random() < 0.3:
             v["unaudited"] = {"Z": 1}
-        cvrs.append(CVR(id=f"1-1-{k}", votes=v, card_in_batch=k))
+        pooled = pools[k] != "none"
+        cvrs.append(CVR(id=f"1-1-{k}", votes=v, card_in_batch=k, tally_pool=(pools[k] if pooled else rng.choice([None, "Q"])),
+                        pool=pooled))
+    if padded:
+        CVR.add_pool_contests(cvrs, CVR.pool_contests(cvrs))
+    listing = {c: sum(1 for cv in cvrs if cv.has_contest(c)) for c in cons}
+    bounds = {c: listing[c] + rng.choice([0, 0, 1, 2]) for c in cons}
     audit = compare.mk_audit(True, max_cards)
     contests = Contest.from_dict_of_dicts({c: {"name": c, "risk_limit": limit, "cards": bounds[c], "choice_function": "PLURALITY",
                                                "n_winners": 1, "candidates": ["W", "L", "X"], "winner": ["W"],
-                                               "audit_type": Audit.AUDIT_TYPE.CARD_COMPARISON, "test": NonnegMean.alpha_mart,
+                                               "audit_type": (Audit.AUDIT_TYPE.ONEAUDIT if oneaudit else
+                                                              Audit.AUDIT_TYPE.CARD_COMPARISON),
+                                               "test": NonnegMean.alpha_mart,
                                                "estim": NonnegMean.fixed_alternative_mean, "use_style": True,
                                                "test_kwargs": {}} for c in cons})
     e = {"tid": f"{tid}:0", "walk": tid, "act": "phantoms", "cons": cons, "styles": [sorted(s) for s in styles],
-         "bounds": bounds, "maxCards": max_cards}
+         "bounds": bounds, "maxCards": max_cards, "pools": pools, "padded": padded}
     try:
         with warnings.catch_warnings():
             warnings.simplefilter("ignore")
@@ -63,8 +72,7 @@ def replay(tid, cons, styles, rounds, rng):
     for r, pos in enumerate(perm):
         allc[pos].sample_num = base + 11 * (r + 1)
     e["order"] = perm
-    e["votes"] = [{c: (votes[k][c] if k < n else "none") for c in (styles[k] if k < n else
-                                                                   [x for x in allc[k].votes if x in cons])} for k in range(tot)]
+    e["votes"] = [{c: (votes[k].get(c, "none") if k < n else "none") for c in cons} for k in range(tot)]
     recs.append(e)
     if "exc" in e:
         return recs
@@ -75,9 +83,16 @@ def replay(tid, cons, styles, rounds, rng):
             warnings.simplefilter("ignore")
             Assertion.make_all_assertions(contests)
             audit.check_audit_parameters(contests)
+            if oneaudit:
+                for c in cons:
+                    for a in ASNS:
+                        contests[c].assertions[a].assorter.set_tally_pool_means(cvr_list=allc, use_style=True)
             Assertion.set_all_margins_from_cvrs(audit=audit, contests=contests, cvr_list=allc)
         e["out"] = {"margin": {c: {a: rs(contests[c].assertions[a].margin) for a in ASNS} for c in cons},
-                    "u": {c: {a: rs(contests[c].assertions[a].test.u) for a in ASNS} for c in cons}}
+                    "u": {c: {a: rs(contests[c].assertions[a].test.u) for a in ASNS} for c in cons},
+                    "pool_means": {c: {a: {str(p_): rs(v) for p_, v in
+                                           (contests[c].assertions[a].assorter.tally_pool_means or {}).items()}
+                                       for a in ASNS} for c in cons}}
     except Exception as ex:
         e["exc"] = {"type": type(ex).__name__, "site": core.exc_site(ex)}
     recs.append(e)
@@ -96,8 +111,12 @@ def replay(tid, cons, styles, rounds, rng):
             for c in cons:
                 if whole == "unfound":
                     d[c] = "unfound"
-                elif whole == "asis" or c not in styles[k]:
-                    d[c] = votes[k].get(c, "missing") if c in styles[k] else "missing"
+                elif c not in styles[k]:
+                    # not on the card as scanned (it may be listed now through padding): the manual record lacks it or
+                    # shows no vote
+                    d[c] = rng.choice(["missing", "missing", "none"]) if allc[k].has_contest(c) else "missing"
+                elif whole == "asis":
+                    d[c] = votes[k][c]
                 else:
                     d[c] = rng.choice(["W", "L", "X", "none", "missing"])
             mvr_kind.append(d)
@@ -161,13 +180,13 @@ def audit_run_part(rep, tier, rng, behaviours):
     recs = []
     cap = 700 if tier == "quick" else 8000
     for k, (cons, styles, rounds) in enumerate(behaviours[:cap]):
-        recs += replay(f"e2e{k}", cons, [set(s) for s in styles], rounds, rng)
+        recs += replay(f"e2e{k}", cons, [set(s) for s in styles], rounds, rng, oneaudit=(k % 3 == 2))
     cons3 = ["c1", "c2", "c3"]
     for k in range(60 if tier == "quick" else 1200):
         n = rng.randint(5, 24)
         styles = [{c for c in cons3 if rng.random() < 0.55} for _ in range(n)]
         rounds = [{"sizes": {c: rng.randint(0, n // 2) for c in cons3}} for _ in range(rng.randint(1, 5))]
-        recs += replay(f"e2r{k}", cons3, styles, rounds, rng)
+        recs += replay(f"e2r{k}", cons3, styles, rounds, rng, oneaudit=(k % 2 == 1))
     rejects, stats = core.validate_traces("Trace_AuditRun", recs)
     rep.add_trace_stats("Trace_AuditRun (end to end)", stats)
     byid = {r["tid"]: r for r in recs}
